@@ -69,7 +69,9 @@ func Start() *Engine {
 			case w := <-e.addWatcher:
 				logrus.Info("Add watcher")
 				watchers[w.id] = w
-				w.update(ctx, global)
+				if !w.update(ctx, global) {
+					delete(watchers, w.id)
+				}
 			case id := <-e.removeWatcher:
 				logrus.Info("Remove watcher")
 				watchers[id].close()
@@ -87,7 +89,9 @@ func Start() *Engine {
 				global = global.With(Root, value)
 				for i, w := range watchers {
 					logrus.Infof("Update watcher %d", i)
-					w.update(ctx, global)
+					if !w.update(ctx, global) {
+						delete(watchers, i)
+					}
 				}
 			case <-e.stop:
 				logrus.Infof("Stop")
@@ -129,7 +133,7 @@ func (e *Engine) Observe(
 	cancel := func() {
 		e.removeWatcher <- id
 	}
-	e.addWatcher <- &watcher{id, cancel, expr, onupdate, onclose}
+	e.addWatcher <- &watcher{id, expr, onupdate, onclose}
 	return cancel
 }
 
@@ -140,13 +144,16 @@ type updateRequest struct {
 
 type watcher struct {
 	id       uint64
-	cancel   func()
 	expr     rel.Expr
 	onupdate func(rel.Value) error
 	onclose  func(error)
 }
 
-func (w *watcher) update(ctx context.Context, global rel.Scope) {
+// update sends the watcher the value of its expression. It returns false when
+// the observation has ended (the expression or the callback failed) and the
+// caller, which is the engine loop, must drop the watcher. It must not call
+// cancel: that sends to the loop it is running on and would block forever.
+func (w *watcher) update(ctx context.Context, global rel.Scope) (alive bool) {
 	defer func() {
 		if err := recover(); err != nil {
 			w.onclose(errors.WrapPrefix(err, "update panic", 0))
@@ -155,14 +162,11 @@ func (w *watcher) update(ctx context.Context, global rel.Scope) {
 
 	value, err := w.expr.Eval(ctx, global)
 	if err != nil {
-		w.cancel()
 		w.onclose(err)
-		return
+		return false
 	}
 
-	if err = w.onupdate(value); err != nil {
-		w.cancel()
-	}
+	return w.onupdate(value) == nil
 }
 
 func (w *watcher) close() {
